@@ -3,6 +3,7 @@ package rules
 import (
 	"fmt"
 	"go/constant"
+	"go/token"
 	"go/types"
 	"sort"
 	"strconv"
@@ -31,6 +32,8 @@ func runC09(c *Check, tier string) {
 	ruleMemoKeyComplete(c, "R09h", "hashing", "output")
 	ruleStarlarkDisplayFormNotStored(c, "R09i")
 	ruleRecordListsFilledSequentially(c, "R09j")
+	ruleRecordedOutputsComparedAsSets(c, "R09k")
+	ruleExportedConfigIsKeyed(c, "R09l")
 }
 
 // R09f: every listed input file contributes its content — the loop that streams the input files into the
@@ -1053,7 +1056,144 @@ func ruleRecordListsFilledSequentially(c *Check, rule string) {
 			}
 		}
 	}
+	// the same for a hasher shared by goroutines: what is written into it in completion order is hashed in
+	// completion order (a mutex makes the writes safe, not ordered)
+	for _, hs := range hasherSinks(c) {
+		fn := hs.Call.Parent()
+		if !spawned[fn] {
+			continue
+		}
+		shared := false
+		for _, o := range engine.Origins(hs.Hasher) {
+			switch x := o.(type) {
+			case *ssa.FreeVar:
+				shared = true
+			case *ssa.UnOp:
+				if _, ok := x.X.(*ssa.FreeVar); ok {
+					shared = true
+				}
+			}
+		}
+		if !shared {
+			continue
+		}
+		bad++
+		c.Bad(rule, "shared-hasher-written-sequentially/"+c.P.FuncName(fn), "a hasher captured from the enclosing function is written from a goroutine body: the parts enter the digest in completion order, so the same state hashes differently from build to build (an unchanged target misses the cache, or its dependants do)", c.P.InstrPos(hs.Call))
+	}
 	if bad == 0 {
-		c.OK(rule, "record-lists-sequential", "none of the "+strconv.Itoa(len(spawned))+" goroutine bodies stores into a list field of a persisted record", "-")
+		c.OK(rule, "record-lists-sequential", "none of the "+strconv.Itoa(len(spawned))+" goroutine bodies stores into a list field of a persisted record or writes into a hasher it shares with others", "-")
+	}
+}
+
+// R09k (also R02n): where the outputs recorded in a stored target result are compared with the declared ones the
+// comparison does not depend on order: the result writer records outputs in the order their uploads finished.
+func ruleRecordedOutputsComparedAsSets(c *Check, rule string) {
+	c.Rule(rule, "every element-wise comparison (slices.Equal, or a loop comparing x[i] with y[i]) between a list derived from the stored result's outputs and the declared outputs is made on lists that were sorted before it", 1)
+	outsKey := fk("proto/gen.TargetResult", "Outputs")
+	n := 0
+	for _, fn := range c.P.Funcs {
+		if !(engine.InPackage(fn, "output") || engine.InPackage(fn, "execution") || engine.InPackage(fn, "caching")) {
+			continue
+		}
+		readsStored := false
+		for _, s := range engine.SitesIn(fn) {
+			if strings.HasSuffix(engine.CalleeName(s), "gen.TargetResult).GetOutputs") {
+				readsStored = true
+			}
+		}
+		if !readsStored && !readsField(c, fn, outsKey) {
+			continue
+		}
+		type cmp struct {
+			at   ssa.Instruction
+			a, b ssa.Value
+		}
+		var cmps []cmp
+		for _, s := range engine.SitesIn(fn) {
+			if name := engine.CalleeName(s); (name == "slices.Equal" || name == "slices.EqualFunc" || name == "reflect.DeepEqual") && len(s.Common().Args) >= 2 {
+				cmps = append(cmps, cmp{s, s.Common().Args[0], s.Common().Args[1]})
+			}
+		}
+		for _, b := range fn.Blocks {
+			for _, in := range b.Instrs {
+				bo, ok := in.(*ssa.BinOp)
+				if !ok || (bo.Op != token.NEQ && bo.Op != token.EQL) {
+					continue
+				}
+				elem := func(v ssa.Value) ssa.Value {
+					if ld, ok := v.(*ssa.UnOp); ok && ld.Op == token.MUL {
+						if ia, ok := ld.X.(*ssa.IndexAddr); ok {
+							if _, isSlice := ia.X.Type().Underlying().(*types.Slice); isSlice {
+								return ia.X
+							}
+						}
+					}
+					return nil
+				}
+				if x, y := elem(bo.X), elem(bo.Y); x != nil && y != nil && !sameSlice(x, y) {
+					cmps = append(cmps, cmp{bo, x, y})
+				}
+			}
+		}
+		for _, cm := range cmps {
+			n++
+			ok := sortedBefore(c, fn, cm.a, cm.at) && sortedBefore(c, fn, cm.b, cm.at)
+			c.Require(ok, rule, "recorded-outputs-compared-sorted/"+c.P.FuncName(fn), "both lists are sorted before they are compared element by element", "the outputs recorded in the stored result are compared with the declared outputs position by position without sorting both first: the writer records them in the order their uploads finished, so a multi-output target whose first output is slower to store 'mismatches' its own result and is executed again on every rebuild", c.P.InstrPos(cm.at))
+		}
+	}
+	if n == 0 {
+		c.Unknown(rule, "recorded-outputs-compared-sorted", "no element-wise comparison of the stored result's outputs found", "-")
+	}
+}
+
+// R09l: what the command is told about the build configuration is in its key. Fields of the workspace
+// configuration that are exported into a target command's environment (GROG_OS, GROG_ARCH, GROG_PLATFORM …) can
+// change what the command produces; each one must also flow into the change hash. Tabled: the workspace root (the
+// key must not depend on the checkout location, R02a) and the pass-through environment variables (not part of
+// the state the property lists).
+func ruleExportedConfigIsKeyed(c *Check, rule string) {
+	c.Rule(rule, "every field of the workspace configuration that flows into the environment of target commands also flows into the change hash (tabled exceptions: WorkspaceRoot, EnvironmentVariables)", 2)
+	ex := findExec(c, rule)
+	if ex == nil {
+		return
+	}
+	// the environment of the command: stores into exec.Cmd.Env in the runner's region
+	region := regionOf(c, ex.RunCommand)
+	var sinks []Node
+	for f := range region {
+		for _, b := range f.Blocks {
+			for _, in := range b.Instrs {
+				if st, ok := in.(*ssa.Store); ok {
+					if fa, ok := st.Addr.(*ssa.FieldAddr); ok && engine.FieldKeyOf(fa.X.Type(), fa.Field) == fk("os/exec.Cmd", "Env") {
+						sinks = append(sinks, st.Val)
+					}
+				}
+			}
+		}
+	}
+	if len(sinks) == 0 {
+		c.Unknown(rule, "exported-config-keyed", "no store into exec.Cmd.Env found in the command runner", "-")
+		return
+	}
+	env := c.G.Backward(sinks, func(e *engine.Edge) bool { return e.Kind != engine.EField })
+	all, _ := keyBackward(c)
+	tabled := map[string]string{
+		"WorkspaceRoot":        "the key must not depend on where the workspace is checked out",
+		"EnvironmentVariables": "pass-through variables are not part of the state the property lists",
+	}
+	var exported []string
+	for n := range env.Parent {
+		if k, ok := n.(engine.FieldKey); ok && k.T == "config.WorkspaceConfig" {
+			exported = append(exported, k.F)
+		}
+	}
+	sort.Strings(exported)
+	for _, f := range exported {
+		key := "exported-config-keyed/" + f
+		if why, ok := tabled[f]; ok {
+			c.OK(rule, key, "tabled: "+why, "-")
+			continue
+		}
+		c.Require(all.Has(fk("config.WorkspaceConfig", f)), rule, key, "the field also flows into the change hash", "WorkspaceConfig."+f+" is handed to target commands through their environment but is not part of the change hash: two builds that differ only in it (another --platform variant, say) produce different outputs under the same cache key, and the second one is served the first one's result", "-")
 	}
 }
